@@ -49,6 +49,10 @@ pub mod sse {
         use super::*;
         include!("interp_par.rs");
     }
+    pub mod big {
+        use super::*;
+        include!("interp_big.rs");
+    }
 }
 
 /// Interpreters instantiated against the portable (cfg(miri)) twin of /repo.
@@ -84,6 +88,10 @@ pub mod gen {
         use super::*;
         include!("interp_par.rs");
     }
+    pub mod big {
+        use super::*;
+        include!("interp_big.rs");
+    }
 }
 
 pub mod specs;
@@ -101,6 +109,8 @@ pub fn run_case(case: &case::Case) -> outcome::Outcome {
         ("lay", _) => gen::lay::run_case(case),
         ("par", 0) => sse::par::run_case(case),
         ("par", _) => gen::par::run_case(case),
+        ("big", 0) => sse::big::run_case(case),
+        ("big", _) => gen::big::run_case(case),
         ("serde", 0) => sse::serde_i::run_case(case),
         ("serde", _) => gen::serde_i::run_case(case),
         ("arith", 2) => {
